@@ -218,13 +218,6 @@ pub fn c07_uri_segment_pair_n4() {
     uri_segment_pair::<4, EQ>()
 }
 
-// @h prop=C07 tier=thorough kind=check timeout=3000 mem=20 bound="all pairs of uri::Segment values <= 6 bytes each (two escapes)" encodes="same as c07_uri_segment_pair_n4"
-#[cfg_attr(kani, kani::proof)]
-#[cfg_attr(kani, kani::unwind(10))]
-pub fn c07_uri_segment_pair_n6() {
-    uri_segment_pair::<6, EQ>()
-}
-
 // @h prop=C07 tier=quick kind=check timeout=2400 mem=10 bound="all pairs of uri::Host values <= 4 bytes each" encodes="PartialEq/Ord/Hash for uri::Host"
 #[cfg_attr(kani, kani::proof)]
 #[cfg_attr(kani, kani::unwind(10))]
@@ -258,13 +251,6 @@ pub fn c07_uri_userinfo_pair_n5() {
 #[cfg_attr(kani, kani::unwind(10))]
 pub fn c07_iri_segment_pair_n4() {
     iri_segment_pair::<4, EQ>()
-}
-
-// @h prop=C07 tier=thorough kind=check timeout=3000 mem=20 bound="all pairs of iri::Segment values <= 6 bytes each (literal U+00E9 vs %C3%A9 fits)" encodes="same as c07_iri_segment_pair_n4"
-#[cfg_attr(kani, kani::proof)]
-#[cfg_attr(kani, kani::unwind(10))]
-pub fn c07_iri_segment_pair_n6() {
-    iri_segment_pair::<6, EQ>()
 }
 
 // @h prop=C07 tier=thorough kind=check timeout=3000 mem=20 bound="all pairs of iri::Query values <= 5 bytes each" encodes="PartialEq/Ord/Hash for iri::Query"
@@ -399,60 +385,6 @@ pub fn c07_path_ord_rep8_n4() {
     path_vs_rep::<4, 8, ORD>()
 }
 
-// @h prop=C07,C08 tier=thorough kind=check timeout=5400 mem=26 bound="uri::Path <= 5 bytes x representative '' (both orders)" encodes="same as c07_path_vs_rep6_n4"
-#[cfg_attr(kani, kani::proof)]
-#[cfg_attr(kani, kani::unwind(10))]
-#[cfg_attr(kani, kani::stub(smallvec::SmallVec::try_grow, crate::stubs::sv_try_grow))]
-#[cfg_attr(kani, kani::stub(smallvec::SmallVec::push, crate::stubs::sv_push))]
-pub fn c07_path_eq_rep0_n5() {
-    path_vs_rep::<5, 0, EQ>()
-}
-
-// @h prop=C07,C08 tier=thorough kind=check timeout=5400 mem=26 bound="uri::Path <= 5 bytes x representative '/' (both orders)" encodes="same as c07_path_vs_rep6_n4"
-#[cfg_attr(kani, kani::proof)]
-#[cfg_attr(kani, kani::unwind(10))]
-#[cfg_attr(kani, kani::stub(smallvec::SmallVec::try_grow, crate::stubs::sv_try_grow))]
-#[cfg_attr(kani, kani::stub(smallvec::SmallVec::push, crate::stubs::sv_push))]
-pub fn c07_path_eq_rep1_n5() {
-    path_vs_rep::<5, 1, EQ>()
-}
-
-// @h prop=C07,C08 tier=thorough kind=check timeout=5400 mem=26 bound="uri::Path <= 5 bytes x representative 'a' (both orders)" encodes="same as c07_path_vs_rep6_n4"
-#[cfg_attr(kani, kani::proof)]
-#[cfg_attr(kani, kani::unwind(10))]
-#[cfg_attr(kani, kani::stub(smallvec::SmallVec::try_grow, crate::stubs::sv_try_grow))]
-#[cfg_attr(kani, kani::stub(smallvec::SmallVec::push, crate::stubs::sv_push))]
-pub fn c07_path_eq_rep2_n5() {
-    path_vs_rep::<5, 2, EQ>()
-}
-
-// @h prop=C07,C08 tier=thorough kind=check timeout=5400 mem=26 bound="uri::Path <= 5 bytes x representative 'a/' (both orders)" encodes="same as c07_path_vs_rep6_n4"
-#[cfg_attr(kani, kani::proof)]
-#[cfg_attr(kani, kani::unwind(10))]
-#[cfg_attr(kani, kani::stub(smallvec::SmallVec::try_grow, crate::stubs::sv_try_grow))]
-#[cfg_attr(kani, kani::stub(smallvec::SmallVec::push, crate::stubs::sv_push))]
-pub fn c07_path_eq_rep3_n5() {
-    path_vs_rep::<5, 3, EQ>()
-}
-
-// @h prop=C07,C08 tier=thorough kind=check timeout=5400 mem=26 bound="uri::Path <= 5 bytes x representative 'a/b' (both orders)" encodes="same as c07_path_vs_rep6_n4"
-#[cfg_attr(kani, kani::proof)]
-#[cfg_attr(kani, kani::unwind(10))]
-#[cfg_attr(kani, kani::stub(smallvec::SmallVec::try_grow, crate::stubs::sv_try_grow))]
-#[cfg_attr(kani, kani::stub(smallvec::SmallVec::push, crate::stubs::sv_push))]
-pub fn c07_path_eq_rep4_n5() {
-    path_vs_rep::<5, 4, EQ>()
-}
-
-// @h prop=C07,C08 tier=thorough kind=check timeout=5400 mem=26 bound="uri::Path <= 5 bytes x representative '..' (both orders)" encodes="same as c07_path_vs_rep6_n4"
-#[cfg_attr(kani, kani::proof)]
-#[cfg_attr(kani, kani::unwind(10))]
-#[cfg_attr(kani, kani::stub(smallvec::SmallVec::try_grow, crate::stubs::sv_try_grow))]
-#[cfg_attr(kani, kani::stub(smallvec::SmallVec::push, crate::stubs::sv_push))]
-pub fn c07_path_eq_rep5_n5() {
-    path_vs_rep::<5, 5, EQ>()
-}
-
 // @h prop=C07,C08 tier=thorough kind=check timeout=5400 mem=26 bound="uri::Path <= 5 bytes x representative 'a/..': equality, both orders" encodes="same as c07_path_vs_rep6_n4"
 #[cfg_attr(kani, kani::proof)]
 #[cfg_attr(kani, kani::unwind(10))]
@@ -462,15 +394,6 @@ pub fn c07_path_eq_rep6_n5() {
     path_vs_rep::<5, 6, EQ>()
 }
 
-// @h prop=C07,C08 tier=thorough kind=check timeout=5400 mem=26 bound="uri::Path <= 5 bytes x representative './a' (both orders)" encodes="same as c07_path_vs_rep6_n4"
-#[cfg_attr(kani, kani::proof)]
-#[cfg_attr(kani, kani::unwind(10))]
-#[cfg_attr(kani, kani::stub(smallvec::SmallVec::try_grow, crate::stubs::sv_try_grow))]
-#[cfg_attr(kani, kani::stub(smallvec::SmallVec::push, crate::stubs::sv_push))]
-pub fn c07_path_eq_rep7_n5() {
-    path_vs_rep::<5, 7, EQ>()
-}
-
 // @h prop=C07,C08 tier=thorough kind=check timeout=5400 mem=26 bound="uri::Path <= 5 bytes x representative '//a': ordering" encodes="same as c07_path_vs_rep6_n4"
 #[cfg_attr(kani, kani::proof)]
 #[cfg_attr(kani, kani::unwind(10))]
@@ -478,51 +401,6 @@ pub fn c07_path_eq_rep7_n5() {
 #[cfg_attr(kani, kani::stub(smallvec::SmallVec::push, crate::stubs::sv_push))]
 pub fn c07_path_eq_rep8_n5() {
     path_vs_rep::<5, 8, EQ>()
-}
-
-// @h prop=C07,C08 tier=thorough kind=check timeout=5400 mem=26 bound="uri::Path <= 5 bytes x representative '%61' (both orders)" encodes="same as c07_path_vs_rep6_n4"
-#[cfg_attr(kani, kani::proof)]
-#[cfg_attr(kani, kani::unwind(10))]
-#[cfg_attr(kani, kani::stub(smallvec::SmallVec::try_grow, crate::stubs::sv_try_grow))]
-#[cfg_attr(kani, kani::stub(smallvec::SmallVec::push, crate::stubs::sv_push))]
-pub fn c07_path_eq_rep9_n5() {
-    path_vs_rep::<5, 9, EQ>()
-}
-
-// @h prop=C07,C08 tier=thorough kind=check timeout=5400 mem=26 bound="uri::Path <= 5 bytes x representative '/a' (both orders)" encodes="same as c07_path_vs_rep6_n4"
-#[cfg_attr(kani, kani::proof)]
-#[cfg_attr(kani, kani::unwind(10))]
-#[cfg_attr(kani, kani::stub(smallvec::SmallVec::try_grow, crate::stubs::sv_try_grow))]
-#[cfg_attr(kani, kani::stub(smallvec::SmallVec::push, crate::stubs::sv_push))]
-pub fn c07_path_eq_rep10_n5() {
-    path_vs_rep::<5, 10, EQ>()
-}
-
-// @h prop=C07,C08 tier=thorough kind=check timeout=5400 mem=26 bound="uri::Path <= 5 bytes x representative '/a/.' (both orders)" encodes="same as c07_path_vs_rep6_n4"
-#[cfg_attr(kani, kani::proof)]
-#[cfg_attr(kani, kani::unwind(10))]
-#[cfg_attr(kani, kani::stub(smallvec::SmallVec::try_grow, crate::stubs::sv_try_grow))]
-#[cfg_attr(kani, kani::stub(smallvec::SmallVec::push, crate::stubs::sv_push))]
-pub fn c07_path_eq_rep11_n5() {
-    path_vs_rep::<5, 11, EQ>()
-}
-
-// @h prop=C07,C08 tier=thorough kind=check timeout=5400 mem=26 bound="uri::Path <= 5 bytes x representative '../a' (both orders)" encodes="same as c07_path_vs_rep6_n4"
-#[cfg_attr(kani, kani::proof)]
-#[cfg_attr(kani, kani::unwind(10))]
-#[cfg_attr(kani, kani::stub(smallvec::SmallVec::try_grow, crate::stubs::sv_try_grow))]
-#[cfg_attr(kani, kani::stub(smallvec::SmallVec::push, crate::stubs::sv_push))]
-pub fn c07_path_eq_rep12_n5() {
-    path_vs_rep::<5, 12, EQ>()
-}
-
-// @h prop=C07,C08 tier=thorough kind=check timeout=5400 mem=26 bound="uri::Path <= 5 bytes x representative '/%2F' (both orders)" encodes="same as c07_path_vs_rep6_n4"
-#[cfg_attr(kani, kani::proof)]
-#[cfg_attr(kani, kani::unwind(10))]
-#[cfg_attr(kani, kani::stub(smallvec::SmallVec::try_grow, crate::stubs::sv_try_grow))]
-#[cfg_attr(kani, kani::stub(smallvec::SmallVec::push, crate::stubs::sv_push))]
-pub fn c07_path_eq_rep13_n5() {
-    path_vs_rep::<5, 13, EQ>()
 }
 
 /// Deeper, over a dot-segment alphabet ({'.','/','a'}), against a representative.
@@ -550,15 +428,6 @@ fn path_dots_vs_rep<const N: usize, const K: usize, const MODE: u8>() {
 #[cfg_attr(kani, kani::stub(smallvec::SmallVec::push, crate::stubs::sv_push))]
 pub fn c07_path_dots_eq_rep5_n7() {
     path_dots_vs_rep::<7, 5, EQ>()
-}
-
-// @h prop=C07,C08 tier=thorough kind=check timeout=5400 mem=26 bound="paths <= 9 bytes over the alphabet {'.','/','a'} x representative 'a/b' (both orders)" encodes="same as c07_path_dots_vs_rep5_n7"
-#[cfg_attr(kani, kani::proof)]
-#[cfg_attr(kani, kani::unwind(12))]
-#[cfg_attr(kani, kani::stub(smallvec::SmallVec::try_grow, crate::stubs::sv_try_grow))]
-#[cfg_attr(kani, kani::stub(smallvec::SmallVec::push, crate::stubs::sv_push))]
-pub fn c07_path_dots_eq_rep4_n9() {
-    path_dots_vs_rep::<9, 4, EQ>()
 }
 
 // @h prop=C07,C08 tier=thorough kind=check timeout=3000 mem=30 bound="uri::Path <= 4 bytes x representative '%61': equal values hash identically" encodes="Hash for uri::Path (absolute flag + normalised segments through pct_hash)"
